@@ -162,6 +162,10 @@ let handle (x : sx) : unit =
     let sc = { sc_id = z_of id; sc_mr = querier_mr (bool_of cluster) (hints_of h) (list_of matcher_of ms);
                sc_rows = list_of row_of rows; sc_fetch = list_of (pair_of n_of labels_of) fetch; sc_obs = list_of out_of obs } in
     Printf.printf "sel %d %s %s %s\n" (int_of id) (b01 (scase_mismatch sc)) (b01 (scase_spec_violation sc)) (b01 (scase_dup_violation sc))
+  | L [A "msel"; id; cluster; h; ms; rows; series; obs] ->
+    let sc = multi_scase (z_of id) (bool_of cluster) (hints_of h) (list_of matcher_of ms) (list_of row_of rows)
+               (list_of ts_of series) (list_of out_of obs) in
+    Printf.printf "sel %d %s %s %s\n" (int_of id) (b01 (scase_mismatch sc)) (b01 (scase_spec_violation sc)) (b01 (scase_dup_violation sc))
   | L [A "sem"; id; cluster; h; ms; db; tree; text; search; full] ->
     let se = { se_id = z_of id; se_cluster = bool_of cluster; se_hints = hints_of h; se_ms = list_of matcher_of ms; se_db = db_of db;
                se_impl = select_of tree; se_text = str_of text; se_search = tbl_of search; se_full = tbl_of full } in
